@@ -331,7 +331,7 @@ def run(ctx):
     r = ctx.rng
     ctx.rule = ('(s, a, s\') triples: s\' from real dynamics (60%), arbitrary same-shape states (20%), single-feature perturbations (20%); '
                 'every reward and termination component with random float parameters, plus nested reduce_sum / reduce_any / reduce_all; '
-                'non-trivial = the component returned something other than its "off" value, or raised')
+                'plus directed origins (layout change, maze, several good exits, door change, hands change, the agent acting outward on the top / left edge); environment level: what functional_step pays = the components on the two states rebuilt from their values; non-trivial = the component returned something other than its "off" value, or raised')
     types = [TY[t] for t in ('Exit', 'Key', 'MovingObstacle', 'Beacon', 'Wall', 'Door')]
     rreqs, rmeta, treqs, tmeta = [], [], [], []
     for s, a, s2, origin in triples(ctx):
